@@ -412,6 +412,59 @@ func checkC05(w *World, r *Report) {
 			how = "loop-carried accumulator of exactly the per-pool values"
 		}
 		r.OK("C05.pair", construct+" paired with a transfer of the same value", pos, wantMethod+" at "+w.Pos(match.move.Instr.Pos())+"; amount: "+how)
+		// the converse: a positive amount IS moved - assuming the amount positive, no return that may report success is
+		// reached without passing the transfer (a second condition in front of it, e.g. "fits an int64", would report a
+		// withdrawal that never happened, or book a change that no coins back)
+		{
+			amt := match.amount
+			positive := func(base ssa.Value) (bool, bool) {
+				c, isC := base.(*ssa.Call)
+				if !isC || len(c.Common().Args) == 0 || c.Common().Args[0] != amt {
+					return false, false
+				}
+				n := callName(c.Common())
+				a := c.Common().Args
+				switch {
+				case strings.HasSuffix(n, "math.Int.IsPositive"):
+					return true, true
+				case strings.HasSuffix(n, "math.Int.GT") && len(a) > 1 && isZeroIntValue(a[1]):
+					return true, true
+				case strings.HasSuffix(n, "math.Int.IsZero"), strings.HasSuffix(n, "math.Int.IsNegative"):
+					return false, true
+				case strings.HasSuffix(n, "math.Int.LTE") && len(a) > 1 && isZeroIntValue(a[1]):
+					return false, true
+				}
+				return false, false
+			}
+			live := ReachUnder(op.fn, positive)
+			// (the transfer may be made at several alternative sites, e.g. one per branch of a flag)
+			xbs := map[*ssa.BasicBlock]bool{match.inF.Instr.Block(): true}
+			for _, m := range movesOf(op.fn) {
+				if m.move.Method == wantMethod && m.amount != nil && (m.amount == op.inc || accumulatorOf(m.amount, op.inc)) {
+					xbs[m.inF.Instr.Block()] = true
+				}
+			}
+			skipped := ""
+			seen := map[*ssa.BasicBlock]bool{}
+			stack := []*ssa.BasicBlock{op.fn.Blocks[0]}
+			for len(stack) > 0 {
+				b := stack[len(stack)-1]
+				stack = stack[:len(stack)-1]
+				if seen[b] || xbs[b] {
+					continue
+				}
+				seen[b] = true
+				if ret, isRet := b.Instrs[len(b.Instrs)-1].(*ssa.Return); isRet && !FailsFrom(b) && instrReachableFrom(op.store.Store, ret) {
+					skipped = w.Pos(ret.Pos())
+				}
+				for si, sc := range b.Succs {
+					if live.Edges[Edge{b, si}] {
+						stack = append(stack, sc)
+					}
+				}
+			}
+			r.Check(skipped == "", "C05.pair", construct+": a positive amount is always transferred", w.Pos(match.inF.Instr.Pos()), "with the amount positive every path from the ledger change to a successful return passes the transfer", "after the ledger change the operation can report success for a positive amount without making the transfer (return at "+skipped+")")
+		}
 		// persists
 		np := 0
 		for _, s := range cg.Sites[op.fn] {
